@@ -22,6 +22,7 @@ META = {
 }
 # ---- END META ----
 import os
+import sys
 import dill as pickle  # schwimmbad.MultiPool is built on multiprocess, which pickles with dill
 
 import numpy as np
@@ -172,13 +173,26 @@ def run(ctx):
                               "in-memory ones (first at row %s)" % (NL, nbL, nd, int(np.argmax(gotL != baseL)) if nd > 0 else "?"),
                               dict(N=NL, n_batches=nbL))
     # ---------------- API paths
+    # (diagnostics only: remember the arguments of the last rejection_sample call, so that an exception names the call)
+    LAST = {}
+    if not getattr(TheJoker.rejection_sample, "_tjverif_recorded", False):
+        _orig_rej = TheJoker.rejection_sample
+
+        def _rec_rej(self, data, prior_samples, *a, **kw):
+            LAST["rej"] = dict(kwargs={k_: repr(v_)[:40] for k_, v_ in kw.items()}, library=type(prior_samples).__name__,
+                               rows=len(prior_samples) if hasattr(prior_samples, "__len__") and not isinstance(prior_samples, str) else repr(prior_samples)[-30:])
+            return _orig_rej(self, data, prior_samples, *a, **kw)
+        _rec_rej._tjverif_recorded = True
+        TheJoker.rejection_sample = _rec_rej
     n = ctx.n(14, 60)
     for i in ctx.cases(n):
         rng = ctx.rng(i)
-        pb = session.make_problem(rng, N=int(rng.choice([1, 2, 9, 37, 150])),
-                                  # single data sets also without a reference epoch (t_ref=False) and with a user-given one:
-                                  # what a worker process unpickles must be the same object the parent holds
-                                  t_ref_kind=str(rng.choice(["default", "none", "before", "inside"], p=[.4, .25, .2, .15])))
+        # single data sets also without a reference epoch (t_ref=False) and with a user-given one: what a worker process
+        # unpickles must be the same object the parent holds. Without a reference epoch the trend is about BMJD 0: only a constant
+        # velocity keeps that design numerically regular (a quadratic in 5e4 d is singular in double precision: all values -inf)
+        trk_ = str(rng.choice(["default", "none", "before", "inside"], p=[.45, .2, .2, .15]))
+        pb = session.make_problem(rng, N=int(rng.choice([1, 2, 9, 37, 150])), t_ref_kind=trk_,
+                                  **({"poly_trend": 1, "n_offsets": 0} if trk_ == "none" else {}))
         if rng.random() < 0.25:
             # a single-precision library (prior.sample(dtype=np.float32)): both paths must still see the same doubles
             for kx in ("P", "e", "omega", "M0"):
@@ -340,7 +354,7 @@ def run(ctx):
                     break
             # the library OBJECT is modified in place between two calls (a column replaced): the second call must see
             # the new values - nothing may be remembered from the first call
-            if pb.exact:
+            if pb.exact and np.any(np.isfinite(base)):
                 import astropy.units as _u
                 libm = session.gen.build_samples(pb.rows, units={"s": pb.du}, ln_prior=True)
                 jm = TheJoker(pb.prior, rng=np.random.default_rng(3), tempfile_path=ctx.tmpdir)
@@ -348,8 +362,10 @@ def run(ctx):
                 jm.marginal_ln_likelihood(pb.data, libm, in_memory=im)
                 jm.rejection_sample(pb.data, libm, in_memory=im)
                 new_s = (np.asarray(pb.s_seen) + pb.dspec["err_scale_kms"] * session.gen.conv(1, "km/s", pb.du)) * session.gen.U(pb.du)
-                which = str(rng.choice(["s", "e", "wrap"]))
-                if which == "s":
+                which = str(rng.choice(["s", "e", "wrap", "s-in-place"]))
+                if which == "s-in-place":
+                    libm["s"][:] = new_s                      # through the live column: no item assignment on the table
+                elif which == "s":
                     libm["s"] = new_s
                 elif which == "e":
                     libm["e"] = np.clip(np.asarray(libm["e"]) * 0.5, 0, 0.9)
@@ -366,6 +382,23 @@ def run(ctx):
                     ctx.violation("stale-library-after-in-place-change", "after replacing column %r of the same JokerSamples object the "
                                   "likelihoods are not those of the modified library (max |diff| %.3g; %d of %d equal the OLD values)"
                                   % (which, float(np.nanmax(np.abs(got - want))), int(np.sum(got == base)), N), dict(desc, column=which, in_memory=im))
+            # the data OBJECT itself is edited between two calls on one TheJoker (uncertainties inflated in place)
+            if pb.ps["n_offsets"] == 0 and i % 2 == 0:
+                from thejoker import RVData as _RV
+                dmut = pb.data.copy()
+                jr = TheJoker(pb.prior, rng=np.random.default_rng(6), tempfile_path=ctx.tmpdir)
+                imr = bool(rng.random() < 0.5)
+                jr.marginal_ln_likelihood(dmut, pb.lib, in_memory=imr)
+                dmut.rv_err = dmut.rv_err * 3.0
+                got = np.asarray(jr.marginal_ln_likelihood(dmut, pb.lib, in_memory=imr))
+                fresh_d = _RV(t=dmut.t, rv=dmut.rv, rv_err=dmut.rv_err, t_ref=dmut.t_ref if dmut.t_ref is not None else False)
+                want = np.asarray(TheJoker(pb.prior).marginal_ln_likelihood(fresh_d, pb.lib, in_memory=True))
+                ctx.evaluations += 1
+                ctx.distinct.add(repr(("data-object-edited-in-place", imr)))
+                if bits(got) != bits(want):
+                    ctx.violation("stale-data-after-in-place-change", "after the uncertainties of the same RVData object were inflated the "
+                                  "same TheJoker returns values that are not those of the edited data (%d of %d equal the OLD data's)"
+                                  % (int(np.sum(got == base)), N), dict(desc, edited="rv_err", in_memory=imr))
             # the user's own CONTAINER of data sets is modified in place between two calls on one TheJoker
             if pb.ps["n_offsets"] == 0:
                 other = session.make_problem(ctx.rng(i, 9), N=3, n_offsets=0, poly_trend=pb.ps["poly_trend"])
@@ -394,7 +427,14 @@ def run(ctx):
             for pk, nb, kind, im in [(0, None, "obj", True), (0, None, "obj", False), (0, 3, "file", False),
                                      (2, None, "obj", False), (2, 7, "file", False)]:
                 jj = TheJoker(pb.prior, pool=get_pool(pk), rng=np.random.default_rng(seed), tempfile_path=ctx.tmpdir)
-                out = jj.rejection_sample(pb.data, pb.lib if kind == "obj" else path, n_batches=nb, in_memory=im)
+                try:
+                    out = jj.rejection_sample(pb.data, pb.lib if kind == "obj" else path, n_batches=nb, in_memory=im)
+                except Exception:
+                    if os.environ.get("TJ_DEBUG"):
+                        lls_ = np.asarray(TheJoker(pb.prior).marginal_ln_likelihood(pb.data, pb.lib, in_memory=True))
+                        print("TJ_DEBUG rejection failed for", (pk, nb, kind, im), "base", base, "again", lls_, "lib dtype",
+                              pb.lib["P"].dtype, "u", np.random.default_rng(seed).uniform(size=len(base)), file=sys.stderr)
+                    raise
                 tags = np.searchsorted(pb.tagP, np.asarray(out["P"].to_value("d")))
                 sets[(pk, nb, kind, im)] = tags.tolist()
                 ctx.evaluations += 1
@@ -517,7 +557,7 @@ def run(ctx):
             if i % 5 == 0:
                 ctx.sample(dict(desc, combos_checked=[list(map(str, c)) for c in sel[:6]], accepted=vals[0][:8]))
         except Exception as e:
-            ctx.exception(e, "path comparison", desc)
+            ctx.exception(e, "path comparison", dict(desc, last_rejection_call=LAST.get("rej")))
         finally:
             if os.path.exists(path):
                 os.unlink(path)
